@@ -131,6 +131,11 @@ def safe_repr(obj):
   Like repr(obj) but falls back to a simpler "<type-name>" string when repr() itself fails.
   """
   try:
+    if isinstance(obj, (set, frozenset)):
+      # repr() of a set lists the elements in hash order, which for strings differs from one process to
+      # the next; the text is stored in the document, so list them in a fixed order.
+      body = '{' + ', '.join(sorted(safe_repr(item) for item in obj)) + '}' if obj else 'set()'
+      return body if type(obj) is set else '%s(%s)' % (type(obj).__name__, body)
     return repr(obj)
   except Exception:
     return '<' + type(obj).__name__ + '>'
